@@ -79,3 +79,9 @@ package cache
 //@ extern func (c Cache) DelCtx
 //@   ensures cacheDels == old(cacheDels) + 1 && result == cacheDelErr
 //@   modifies cacheDels, cacheDelErr
+
+// the constructor pins the statement's 5% jitter
+//@ func NewNode
+//@   property C06
+//@   float real
+//@   call NewUnstable#0: assert arg_deviation == 0.05
